@@ -99,6 +99,19 @@ def run(tier, rep):
             o = message_rec.do_op(msg, "serialize", fields)
             o["op"] = "frameback"
             r["ops"] = [o]
+    # CRC twins: two different valid frames of equal length with the SAME CRC-24Q, parsed one after the other
+    from .. import gen_crc
+
+    for ident, pn, pl in cases[: (40 if quick else 400)]:
+        tw = gen_crc.twin(pl, rnd) if len(pl) >= 8 else None
+        if tw is None:
+            continue
+        for fr in (frame_of(pl), frame_of(tw)):
+            rid, r, msg = corp.add(None, 1, keep_msg=True, via="parse", frame=fr, validate=1, ident="gen:twin:" + ident, profile="twin")
+            if msg is not None:
+                o = message_rec.do_op(msg, "serialize", fields)
+                o["op"] = "frameback"
+                r["ops"] = [o, message_rec.do_op(msg, "payload", fields)]
     verdicts = corp.judge()
     for r in corp.recs:
         v = verdicts[r["rid"]]
@@ -107,7 +120,7 @@ def run(tier, rep):
         rep.case(digest([body.hex(), r["via"]]), nontrivial=len(body) >= 3)
         if v[0] != "accept":
             rep.reject(v[1], {"engine": "message", "ident": meta["ident"], "via": r["via"], "len": len(body)}, de.replay_of(r, meta, v))
-        elif r["via"] == "parse" and v[1] not in ("Message", "Stub") and meta["ident"].startswith("gen:"):
+        elif r["via"] == "parse" and v[1] not in ("Message", "Stub") and meta["ident"].startswith("gen:") and not meta["ident"].startswith("gen:twin"):
             # (frames of the logs whose payload the spec itself rejects - e.g. the truncated 1302
             # messages of the NTRIP log - are outside C07: it speaks of payloads that parse)
             rep.reject("ValidFrameRejected", {"engine": "message", "ident": meta["ident"]}, de.replay_of(r, meta, v))
